@@ -864,16 +864,20 @@ func craft(t *rapid.T, N, d *big.Int, h crypto.Hash, msg []byte, frame func([]by
 		db, H := parts(base)
 		sig = sign(pss.Assemble(h, db, H, emBits, true, byte(rapid.SampledFrom([]int{0xbd, 0xcc, 0x00, 0xbb}).Draw(t, "tr"))))
 	case "topbits":
-		db, H := parts(base)
-		em := pss.Assemble(h, db, H, emBits, true, 0xbc)
 		top := 8*emLen - emBits
 		if top == 0 {
 			kind = "valid"
+			sig = sign(encodeWith(base))
 		} else {
-			b := rapid.IntRange(0, top-1).Draw(t, "topbit")
-			em[0] |= 0x80 >> uint(b)
+			bit := rapid.IntRange(0, top-1).Draw(t, "topbit")
+			// the altered EM has modBits bits, so it is below N only for about half of the salts: retry
+			for try := 0; try < 8 && sig == nil; try++ {
+				db, H := parts(base)
+				em := pss.Assemble(h, db, H, emBits, true, 0xbc)
+				em[0] |= 0x80 >> uint(bit)
+				sig = sign(em)
+			}
 		}
-		sig = sign(em)
 	case "ps-nonzero":
 		db, H := parts(base)
 		ps := len(db) - base - 1
@@ -904,11 +908,20 @@ func craft(t *rapid.T, N, d *big.Int, h crypto.Hash, msg []byte, frame func([]by
 		if em != nil {
 			m := new(big.Int).SetBytes(em)
 			m.SetBit(m, 8*emLen, 1)
+			for try := 0; try < 8 && m.Cmp(N) >= 0 && 8*emLen < N.BitLen(); try++ {
+				m.SetBytes(encodeWith(base))
+				m.SetBit(m, 8*emLen, 1)
+			}
 			if m.Cmp(N) < 0 {
 				sig = pow(m, d, N).FillBytes(make([]byte, k))
 			} else {
-				kind = "valid"
-				sig = sign(em)
+				// no such representative below N for this key: use a wrong-salt-length pair instead
+				kind = "salt-len=other"
+				sl := base + 1
+				if sl > maxSalt {
+					sl = base - 1
+				}
+				sig = sign(encodeWith(sl))
 			}
 		}
 	case "sig+N":
